@@ -189,7 +189,7 @@ def c05_finalize(report, cfg, only=None, positions=None):
                 if i is None:
                     report.ok("R5.4", ikey, sample={"hasher": "%s<%d>" % (name, n), "buffered": p} if p in (0, nb) else None)
                 else:
-                    report.violated("R5.4", ikey, "%s<%d> finalisation with %d buffered bytes: digest byte %d differs from final-UBI + counter-mode output of Skein 1.3" % (name, n, p, i // 8))
+                    report.violated("R5.4", ikey, "%s<%d> finalisation with %d buffered bytes: digest byte %d differs from final-UBI + counter-mode output of Skein 1.3" % (name, n, p, i // 8), graphs=(got, exp))
             engine_guard(go, report, "R5.4", ikey)
     return total
 
